@@ -43,10 +43,10 @@ func checkC07(e *Env) {
 		gate.CallOK("O.length", "integrityblock.readWebBundlePayloadLength", "param:bundleFile"),
 		gate.CallOK("O.stat", "(*os.File).Stat", "param:bundleFile"),
 		gate.Cmp("O.nonneg", tSizeDif, token.GEQ, "const:0"),
-		gate.Cmp("O.zero", tSizeDif, token.EQL, "const:0"),
+		either("O.zero", "fileSize - declaredLength == 0 (or, being non-negative, <= 0)", gate.Cmp("", tSizeDif, token.EQL, "const:0"), gate.Cmp("", tSizeDif, token.LEQ, "const:0")),
 	)
 	e.requireResult("RESULT", ob, gate.Outcome{Kind: gate.ErrNil, Idx: 2}, 0, "call:integrityblock.generateEmptyIntegrityBlock()", "a fresh empty integrity block")
-	e.requireResult("RESULT", ob, gate.Outcome{Kind: gate.ErrNil, Idx: 2}, 1, tSizeDif, "fileSize - declaredLength (zero here)")
+	e.requireResult("RESULT", ob, gate.Outcome{Kind: gate.ErrNil, Idx: 2}, 1, "{"+tSizeDif+"|const:0}", "fileSize - declaredLength (zero here)")
 
 	add := e.fn("integrityblock.(*IntegrityBlock).addNewSignatureToIntegrityBlock")
 	e.requireStore("RESULT", add, "param:integrityBlock.SignatureStack", "append(alloc:[1]*integrityblock.IntegritySignature,param:integrityBlock.SignatureStack)", "the new one-element slice followed by the old stack (prepend)")
